@@ -606,6 +606,13 @@ def sweep_in_claim_plan_window(h: History) -> list[dict[str, Any]]:
                        and began is not None and info.get("ins_seq", 0) > began]
             if pending:
                 out.append({"stage": h.key_of_stage(sid), "queued": r["new"], "seq": r["seq"], "msg": "-", "how": "stale-read"})
+                hit = True
+        if not hit and r["new"] in ("StartTask", "RunTask") and sid:
+            # same non-atomic check-and-push, other victim: the stage was RUNNING when this sweep began and a jump re-armed
+            # it (NOT_STARTED) before the sweep's push landed - the task is started inside a stage that has not started
+            began2 = max((m[0] for m in getattr(h.w, "sweep_marks", []) if m[0] < r["seq"]), default=None)
+            if began2 is not None and status.get(sid) == "NOT_STARTED" and h.stage_status_at(sid, began2 + 1) == "RUNNING":
+                out.append({"stage": h.key_of_stage(sid), "queued": r["new"], "seq": r["seq"], "msg": "-", "how": "rearmed-during-sweep"})
     return out
 
 
